@@ -59,6 +59,10 @@ void harness(void){
   int fec=vt_range(-1,2);
   int usenull=vt_range(0,1);
   g_fail_allowed=vt_range(0,1);
+#ifdef C09ONLY
+  __CPROVER_assume(usenull || len==0 || fec==1);        /* C09: concealment and FEC requests only */
+  __CPROVER_assume(fec==0 || fec==1);
+#endif
   g_cap=frame_size*st.channels; g_pcm=(float*)vt_alloc(sizeof(float)*g_cap);
   opus_int32 po=-7; int lpd0=st.last_packet_duration;
   const unsigned char *data = usenull? (const unsigned char*)0 : pkt;
